@@ -7,7 +7,7 @@ From Boltons Require Import Lib.Prelude Lib.C03_Syntax Lib.C03_Conc Model.C03_Mo
 Definition compile_l (tb : lock_table) (c : config) (x : op) : P rv := compile_cfg tb c x.
 
 Definition conc_run (tb : lock_table) (c : config) (progs : nat -> list op) (sh0 : shared) (sched : list nat) :=
-  run sem (compile_l tb c) (reentrant tb) sched (init_state sh0 progs).
+  run sem ssem (compile_l tb c) (reentrant tb) sched (init_state sh0 counters0 progs).
 
 Definition serial_run (tb : lock_table) (c : config) (progs : nat -> list op) (sh0 : shared) (order : list nat) :=
   serial sem (compile_l tb c) order sh0 progs.
@@ -26,8 +26,8 @@ Theorem serialisable_model :
 Proof.
   intros tb T c progs sh0 sched. unfold conc_run, serial_run.
   rewrite (covered_reentrant tb T).
-  apply (serialisable shared act ares sem op rv (compile_l tb c) progs sh0).
-  intro o. unfold compile_l. apply compile_one_cs. exact T.
+  assert (HH : forall o, one_cs (compile_l tb c o)) by (intro o; unfold compile_l; apply compile_one_cs; exact T).
+  exact (serialisable shared act ares sem counters sact nat ssem op rv (compile_l tb c) progs sh0 HH counters0 sched).
 Qed.
 
 Theorem no_deadlock_model :
@@ -35,12 +35,12 @@ Theorem no_deadlock_model :
   forall c progs sh0 sched,
     let s := conc_run tb c progs sh0 sched in
     (exists t, t_cur (m_thr s t) <> None \/ t_todo (m_thr s t) <> []) ->
-    exists t, step sem (compile_l tb c) (reentrant tb) t s <> None.
+    exists t, step sem ssem (compile_l tb c) (reentrant tb) t s <> None.
 Proof.
   intros tb T c progs sh0 sched. unfold conc_run.
   rewrite (covered_reentrant tb T).
-  apply (progress shared act ares sem op rv (compile_l tb c) progs sh0).
-  intro o. unfold compile_l. apply compile_one_cs. exact T.
+  assert (HH : forall o, one_cs (compile_l tb c o)) by (intro o; unfold compile_l; apply compile_one_cs; exact T).
+  exact (progress shared act ares sem counters sact nat ssem op rv (compile_l tb c) progs sh0 HH counters0 sched).
 Qed.
 
 (* ---- the hypothesis is not decorative --------------------------------------------- *)
